@@ -155,8 +155,72 @@ def corpus_case(rec, pvl, name, text, rng, n_layouts):
             rec.count("corpus_layouts_agree")
 
 
+# a grammar and a decoder of different dialects given together: there is no
+# specification tree for these, so the plain layout of the same tokens is the
+# reference (purely metamorphic)
+MIXED = {
+    "ISISGrammar+PVLDecoder": ("ISIS", lambda pvl: pvl.parser.OmniParser(
+        grammar=pvl.grammar.ISISGrammar(), decoder=pvl.decoder.PVLDecoder())),
+    "OmniGrammar+ODLDecoder": ("default", lambda pvl: pvl.parser.OmniParser(
+        grammar=pvl.grammar.OmniGrammar(), decoder=pvl.decoder.ODLDecoder())),
+    "OmniGrammar+PDSLabelDecoder": ("default", lambda pvl: pvl.parser.OmniParser(
+        grammar=pvl.grammar.OmniGrammar(), decoder=pvl.decoder.PDSLabelDecoder())),
+    "PVLGrammar+OmniDecoder": ("PVL", lambda pvl: pvl.parser.PVLParser(
+        grammar=pvl.grammar.PVLGrammar(), decoder=pvl.decoder.OmniDecoder())),
+}
+
+
+def mixed_case(rec, pvl, config, key):
+    from ..normalise import snapshot
+    reader, mk = MIXED[config]
+    rng = random.Random(key)
+    doc = gt.gen_document(rng, reader)
+    if any(c == "seq-inside-set" for c, _ in doc.meta):
+        return
+    toks = doc.tokens
+    plain = gt.plain_layout(toks)
+    st, base = load(pvl, reader, gt.render(toks, plain), parser=mk(pvl))
+    if st != "ok":
+        rec.count("mixed_base_not_loadable")
+        return
+    want = (snapshot(base), list(getattr(base, "errors", [])) == [])
+    for li in range(LAYOUTS):
+        seps = gt.gen_layout(rng, toks, reader, "wild")
+        text = gt.render(toks, seps)
+        rec.case((config, key, li), seps != plain)
+        rec.count(f"layouts[{config}]")
+
+        def result(s):
+            a, b = load(pvl, reader, gt.render(toks, s), parser=mk(pvl))
+            if a != "ok":
+                return a
+            # (line numbers of missing values move with the layout: only
+            # whether there are any is compared)
+            return (snapshot(b), list(getattr(b, "errors", [])) == [])
+
+        got = result(seps)
+        if got == "timeout":
+            rec.inconc(f"CPU budget exceeded: {key}/{li}")
+            continue
+        if got == want:
+            continue
+        culprits, cur = minimise_layout(toks, seps, plain, lambda s: result(s) != want)
+        feats = gap_feature(toks, cur, culprits[0]) if culprits else \
+            {"prev": "?", "sep": "?", "next": "?"}
+        feats["effect"] = "load-fails" if isinstance(got, str) else "module-differs"
+        rec.violation(CHECK, config, "layout-changes-result", feats,
+                      {"reader": config, "seed": key, "layout": li,
+                       "minimal_text": gt.render(toks, cur),
+                       "culprit_separator": cur[culprits[0]] if culprits else None,
+                       "text": text[:1200]}, str(got)[:200])
+
+
 def shard(i, n, tier, seed, rec, hb):
     pvl = common.import_pvl()
+    for config in MIXED:
+        for j in range(i, 320 if tier == "quick" else 8000, n):
+            hb.beat()
+            mixed_case(rec, pvl, config, f"C04-mixed-{seed}-{config}-{j}")
     per = 1200 if tier == "quick" else 40000
     for reader in gt.READERS:
         for j in range(i, per, n):
